@@ -115,5 +115,15 @@ TEXT = {
                 "algorithm); one extra product for the initial residual is allowed",
         "technique": "runtime monitoring: reference least-squares oracle over the Krylov space + product counter, swept over the iteration cap",
     },
+    "C14": {
+        "level": "Held on the executions observed: generated Hermitian operators (several spectrum families and scales) x start "
+                 "vectors (generic, eigenvector, few eigenvectors, default, batched) x iteration caps x tolerances; the returned "
+                 "Q, T are judged against the reference matrix for orthonormality (1e-12), first column, T pattern, projection, "
+                 "three-term relation, Krylov spans, column cap, early and non-premature stopping, and Ritz pairs.",
+        "note": _NOTE + "; span comparisons and exhaustion are judged only where they are numerically well conditioned (each new "
+                "reference Krylov direction >= 1e-3 ||A q||; O(1) separated spectra for exhaustion); exhausted batch columns are "
+                "frozen at zero and only have to be harmless",
+        "technique": "runtime monitoring: invariant oracles on the returned factorisation against the reference matrix and a reference Krylov basis",
+    },
 }
 NOT_APPLICABLE = {}
